@@ -65,6 +65,7 @@ _ALPHABETS = [
     "äöüßéèñÅ©®µ¿",
     "€漢字→✓",
     "𝄞😀🚀",
+    "e\u0301\u0308\u0323a\u200d\ufeff\u00a0",  # combining marks, zero-width joiner, BOM, no-break space: text that changes under normalisation / stripping
 ]
 
 
@@ -82,6 +83,7 @@ def name(max_octets: int = 40, min_chars: int = 0):
         st.sampled_from(_ALPHABETS[1]),
         st.sampled_from(_ALPHABETS[2]),
         st.sampled_from(_ALPHABETS[3]),
+        st.sampled_from(_ALPHABETS[4]),
     )
     return st.text(alphabet=alpha, min_size=min_chars, max_size=max_octets).map(clip)
 
